@@ -778,6 +778,12 @@ std::vector<double> GridWavelet::getCandidateConstructionPoints(double tolerance
 
     MultiIndexSet refine_candidates = getRefinementCanidates(tolerance, criteria, output, level_limits);
     MultiIndexSet new_points = (dynamic_values->initial_points.empty()) ? std::move(refine_candidates) : refine_candidates - dynamic_values->initial_points;
+    if (!dynamic_values->data.empty() && !new_points.empty()){
+        // samples that are already computed but not yet connected to the grid must not be proposed again
+        Data2D<int> computed(num_dimensions, 0);
+        for(auto const &d : dynamic_values->data) computed.appendStrip(d.point);
+        new_points = new_points - MultiIndexSet(computed);
+    }
 
     // compute the weights for the new_points points
     std::vector<double> norm = getNormalization();
